@@ -55,7 +55,11 @@ func main() {
 			}
 		}
 	case "panicbudget":
-		p, err := Load("/repo", nil)
+		root := "/repo"
+		if len(os.Args) > 2 {
+			root = os.Args[2]
+		}
+		p, err := Load(root, nil)
 		if err != nil {
 			fmt.Println(err)
 			os.Exit(2)
@@ -75,6 +79,10 @@ func main() {
 		for _, k := range sortedKeys(counts) {
 			fmt.Printf("\t%q: %d,\n", k, counts[k])
 		}
+		// message leads per package (for panicLeadTable)
+		dumpPanicLeads = true
+		rep := RunRules(p, "quick", []string{"PANIC-1"})
+		_ = rep
 	case "manifest":
 		os.Exit(cmdManifest())
 	case "rules":
